@@ -20,9 +20,10 @@ import universes as UV  # noqa: E402
 
 NCPU = int(os.environ.get("VERIF_JOBS", "16"))
 EV_KINDS = ["alloc", "ctor_default", "ctor_value", "ctor_copy", "ctor_move", "assign_copy",
-            "assign_move", "iter_deref", "iter_inc", "gen_call", "swap", "compare", "pred"]
+            "assign_move", "iter_deref", "iter_inc", "gen_call", "swap", "compare", "pred",
+            "alloc_construct"]
 MASK_ALL = (1 << len(EV_KINDS)) - 1
-MASK_C05 = 0b11111  # alloc + the four constructor kinds
+MASK_C05 = 0b11111 | (1 << 13)  # alloc + the four constructor kinds + the allocator's construct()
 
 CRASH_PROPS_MEMORY = {1, 2, 3, 12, 13}
 
